@@ -515,6 +515,20 @@ func ruleS12(p *Prog, r *Report) {
 			continue
 		}
 		_, isCommit := bw[top]
+		// a retire helper that only commit routines call is judged with them: its cache write is the "after the register
+		// write, the cache receives the write-set object / the tombstone" step S3 checks at each call site
+		if !isCommit && p.deltaHelperWrites(top) != nil {
+			callers := p.CallersOf(top)
+			all := len(callers) > 0
+			for _, cs := range callers {
+				if _, ok := bw[TopLevel(cs.Caller)]; !ok {
+					all = false
+				}
+			}
+			if all {
+				isCommit = true
+			}
+		}
 		eachInstrDeep(top, func(fn *ssa.Function, in ssa.Instruction) {
 			// cache fills outside commit routines: the slab decoded from the register of the same id
 			if fw, ok := fieldWriteOf(in); ok && fw.Ref.is(storageT, "cache") && fw.Kind == "mapupdate" && !isCommit {
